@@ -2816,6 +2816,52 @@ theorem vi_empty_start_is_default (m : MDP) (rep : Rep) (hS : 0 < m.S) (h : Nat)
     simp only [this, if_true]
   simp only [valueIteration, e]
 
+def PEObj.SameParams (o o' : PEObj) : Prop := o.tol = o'.tol ∧ o.horizon = o'.horizon ∧ o.vParam = o'.vParam
+
+theorem PEObj.run_sameParams (m : MDP) (rep : Rep) : ∀ (es : List PEEvent) (o o' : PEObj), PEObj.SameParams o o' →
+    PEObj.SameParams (PEObj.run m rep o es) (PEObj.run m rep o' (es.filter PEEvent.isSetter)) := by
+  intro es
+  induction es with
+  | nil => intro o o' h; exact h
+  | cons e es ih =>
+    intro o o' h
+    obtain ⟨h1, h2, h3⟩ := h
+    cases e with
+    | setTolerance x =>
+      simp only [List.filter, PEEvent.isSetter, PEObj.run]
+      apply ih
+      simp only [PEObj.step]
+      by_cases hx : x < 0
+      · simp only [hx, if_true]; exact ⟨h1, h2, h3⟩
+      · simp only [hx, if_false]; exact ⟨rfl, h2, h3⟩
+    | setHorizon x =>
+      simp only [List.filter, PEEvent.isSetter, PEObj.run]
+      apply ih
+      exact ⟨h1, rfl, h3⟩
+    | setValues x =>
+      simp only [List.filter, PEEvent.isSetter, PEObj.run]
+      apply ih
+      exact ⟨h1, h2, rfl⟩
+    | call p j =>
+      simp only [List.filter, PEEvent.isSetter, PEObj.run]
+      apply ih
+      exact ⟨h1, h2, h3⟩
+
+/-- **peObj_history.**  Any history of setters and evaluations (of any policies) on one PolicyEvaluation object: the next evaluation returns
+    what a fresh object with the same setter history returns.  In particular PolicyIteration's `eval.setValues(v); eval(p)` is
+    `policyEvaluation … (some v) p`, which is how `piRound` threads `vParam`. -/
+theorem peObj_history (m : MDP) (rep : Rep) (o o' : PEObj) (hp : PEObj.SameParams o o') (es : List PEEvent) (p : Mat) (j j' : Vec) :
+    ((PEObj.run m rep o es).step m rep (.call p j)).2 = ((PEObj.run m rep o' (es.filter PEEvent.isSetter)).step m rep (.call p j')).2 := by
+  obtain ⟨h1, h2, h3⟩ := PEObj.run_sameParams m rep es o o' hp
+  simp only [PEObj.step, h1, h2, h3]
+
+/-- an empty start vector is the all-zero start for every model with at least one state -/
+theorem pe_empty_start_is_default (m : MDP) (rep : Rep) (hS : 0 < m.S) (h : Nat) (tol : Rat) (p : Mat) :
+    policyEvaluation m rep h tol (some #[]) p = policyEvaluation m rep h tol none p := by
+  have : ((#[] : Vec).size != m.S) = true := by
+    simp only [Array.size_empty, bne_iff_ne, ne_eq]; omega
+  simp only [policyEvaluation, this, if_true]
+
 /-! ## the hypotheses are satisfiable: a concrete non-trivial MDP (2 states, 2 actions, negative reward, self-loop) -/
 
 def exMDP : MDP :=
